@@ -23,6 +23,7 @@ import (
 	"fmt"
 	"hash/adler32"
 	"io"
+	"sync"
 )
 
 const (
@@ -208,6 +209,8 @@ func decodeBody(body []byte, cfg Config) (payload []byte, end End, tag, reason s
 	return out, EndClean, "inflated-exact", "", int64(claimed)
 }
 
+var inflaters sync.Pool // of flate readers (Reset before every use): saves ~80 KiB of zeroing per call
+
 // Inflate decodes a complete RFC 1950 stream at the start of data and requires it to produce exactly want bytes.
 func Inflate(data []byte, want int) ([]byte, error) {
 	out, _, err := inflate(data, want)
@@ -229,8 +232,13 @@ func inflate(data []byte, want int) ([]byte, string, error) {
 		return nil, "zlib-header-bad", fmt.Errorf("zlib header: preset dictionary requested")
 	}
 	src := bytes.NewReader(data[2:]) // an io.ByteReader: flate consumes exactly the deflate stream, no read-ahead
-	fr := flate.NewReader(src)
-	defer fr.Close()
+	fr, _ := inflaters.Get().(io.ReadCloser)
+	if fr == nil {
+		fr = flate.NewReader(src)
+	} else if err := fr.(flate.Resetter).Reset(src, nil); err != nil {
+		return nil, "deflate-stream-corrupt", err
+	}
+	defer inflaters.Put(fr)
 	out, err := io.ReadAll(io.LimitReader(fr, int64(want)+1))
 	if err != nil {
 		if len(out) > want {
